@@ -177,6 +177,29 @@ FRESH_FAULTS = {
     "fresh:var-bad-dtype": ("raw", "declare_variable", ["y"], {"dtype": str}),
 }
 
+# the same on a device whose channels are NOT reusable: the DMM id of a still pending SLM mask is taken
+FRESH_NR_CORE = [("slm", ["q0"], "dmm_0")] + [op for op in FRESH_CORE if op[0] != "slm"]
+FRESH_NR_FAULTS = dict(FRESH_FAULTS, **{
+    "dmm:id-taken-by-the-pending-slm-mask": ("config_dmm", "m1", "dmm_0"),
+    "slm:second-mask": ("slm", ["q1"], "dmm_0"),
+})
+
+# an SLM mask on a DMM whose duration constraints are stricter than those of the Global channel that triggers the mask's pulse
+SLM_CORE = [
+    ("add", A.C52, "g"),
+    ("delay", 16, "g"),
+    ("add", A.C52, "l"),
+    ("add", A.Z40, "g"),
+    ("add_dmm", ["C", 52, -1.0], "dmm_0"),
+]
+SLM_FAULTS = {
+    "add:mask-pulse-below-dmm-minimum": ("add", ["c", 10, 1.0, 0.0, 0.0], "g"),
+    "add:mask-pulse-above-dmm-maximum": ("add", ["c", 200, 1.0, 0.0, 0.0], "g"),
+    "add:mask-pulse-above-dmm-maximum-wait-for-all": ("add", ["c", 101, 1.0, 0.0, 0.0], "g", "wait-for-all"),
+    "slm-world:delay-negative": ("delay", -4, "g"),
+    "slm-world:add-unknown-channel": ("add", A.C52, "g9"),
+}
+
 LABEL = {}
 
 
@@ -223,10 +246,15 @@ def _diff(pre, post):
     return None
 
 
-def cause(exc) -> str:
+def cause(exc, ctx=None) -> str:
     m = str(exc)
     if "maximum duration allowed by the device" in m:
         return "max-sequence-duration"
+    if ctx is not None and ctx.op[0] == "add" and m.startswith("duration"):
+        # the first pulse on a Global channel also schedules the SLM mask's pulse on its DMM, which has duration limits of its own
+        dmm = ctx.pre.flags.get("slm_dmm")
+        if dmm in ctx.pre.channels and not any(s.kind == "pulse" for s in ctx.pre.channels[dmm].slots):
+            return "slm-mask-pulse-refused-by-its-dmm"
     return type(exc).__name__
 
 
@@ -239,7 +267,7 @@ def atomic(ctx):
     d = _diff(ctx.pre, ctx.post)
     if d is None:
         return []
-    return [(f"C09:raise-changed-state:{label(ctx.op)}:{cause(ctx.exc)}:{d}", f"{type(ctx.exc).__name__}({str(ctx.exc)[:80]}) but {d} changed")]
+    return [(f"C09:raise-changed-state:{label(ctx.op)}:{cause(ctx.exc, ctx)}:{d}", f"{type(ctx.exc).__name__}({str(ctx.exc)[:80]}) but {d} changed")]
 
 
 def read_only(ctx):
@@ -395,6 +423,11 @@ def plan(tier, seed):
          _alphabet(XY_CORE, XY_FAULTS, RO), 3),
     ]
     plans.append((corner("unit8", prefix=[], qubits=3, name="fresh", max_amp=20.0), _alphabet(FRESH_CORE, FRESH_FAULTS, RO), 2))
+    plans.append((corner("unit8", prefix=[], qubits=3, reusable=False, name="fresh-channels-not-reusable", max_amp=20.0),
+                  _alphabet(FRESH_NR_CORE, FRESH_NR_FAULTS, {k: v for k, v in RO.items() if "draw" not in k}), 2))
+    plans.append((corner("unit", prefix=[("slm", ["q0"], "dmm_0")] + A.GL, qubits=3, over={"dmm": dict(clock=4, min_dur=16, max_dur=100)},
+                         name="slm-mask-on-a-dmm-with-its-own-durations", max_amp=20.0),
+                  _alphabet(SLM_CORE, SLM_FAULTS, {k: v for k, v in RO.items() if "draw" not in k}), 2))
     if tier == "thorough":
         plans = [(w, a, d + 1) for w, a, d in plans]
     return plans
@@ -408,8 +441,8 @@ def run(tier, seed):
     cov["evaluations"] = cov["transitions"]
     cov["distinct_nontrivial"] = res.activations.get("refused_calls", 0) + res.activations.get("read_only_calls", 0)
     cov["fault_causes_exercised"] = len(faults)
-    cov["fault_causes_in_menu"] = len(FAULTS) + len(XY_FAULTS) + len(FRESH_FAULTS)
-    cov["never_refused"] = sorted(set(list(FAULTS) + list(XY_FAULTS) + list(FRESH_FAULTS)) - {f[len("refusal:"):] for f in faults})
+    cov["fault_causes_in_menu"] = len(FAULTS) + len(XY_FAULTS) + len(FRESH_FAULTS) + len(SLM_FAULTS) + 2
+    cov["never_refused"] = sorted(set(list(FAULTS) + list(XY_FAULTS) + list(FRESH_NR_FAULTS) + list(SLM_FAULTS)) - {f[len("refusal:"):] for f in faults})
     cov["rule"] = ("every reachable state (BFS over the valid core ops, de-duplicated on the timeline snapshot) x every entry of the "
                    "invalid-call menu and the read-only menu; non-trivial = transitions in which a call was refused or a read-only "
                    "operation ran (full snapshot incl. call log compared before/after)")
@@ -422,7 +455,7 @@ def run(tier, seed):
 
 
 def replay(payload):
-    for a, b, c in [(CORE, FAULTS, RO), (XY_CORE, XY_FAULTS, RO), (FRESH_CORE, FRESH_FAULTS, RO)]:
+    for a, b, c in [(CORE, FAULTS, RO), (XY_CORE, XY_FAULTS, RO), (FRESH_CORE, FRESH_FAULTS, RO), (SLM_CORE, SLM_FAULTS, RO), (FRESH_NR_CORE, FRESH_NR_FAULTS, RO)]:
         _alphabet(a, b, c)
     ABSTRACT_DEPTH["n"] = 99
     return seqx.replay(payload, MONITORS, with_calls=True)
